@@ -296,14 +296,19 @@ impl<'t, F: Kind + BooleanFunction> Session<'t, F> {
 
     pub fn reorder(&mut self, req: &[u32]) {
         self.out.emit(json!({"ev":"begin","what":"reorder","req":req}));
+        oxidd_reorder::verif::EVENTS.lock().clear();
         let r = self
             .mref
             .with_manager_exclusive(|m| catch(|| F::set_var_order(m, req)));
+        // hook events: level swap begin (0) / end (1), concurrent sort chosen (2)
+        let evs: Vec<(u8, u32)> = std::mem::take(&mut *oxidd_reorder::verif::EVENTS.lock());
+        let conc = evs.iter().any(|e| e.0 == 2);
+        let swaps: Vec<Value> = evs.iter().filter(|e| e.0 < 2).map(|e| json!([e.0, e.1])).collect();
         let (l2v, v2l) = self.order();
         match r {
             Ok(()) => self
                 .out
-                .emit(json!({"ev":"reorder","req":req,"l2v":l2v,"v2l":v2l})),
+                .emit(json!({"ev":"reorder","req":req,"l2v":l2v,"v2l":v2l,"conc":conc,"swaps":swaps})),
             Err(p) => self
                 .out
                 .emit(json!({"ev":"reorder","req":req,"res":{"panic":p}})),
